@@ -264,7 +264,13 @@ func (t *Thread) end(args []Value, err error, exception interface{}) {
 	close(t.resumeCh)
 	t.status = ThreadDead
 	t.caller = nil
-	err = t.cleanupCloseStack(nil, 0, err) // TODO: not nil
+	if _, terminated := exception.(ContextTerminationError); terminated {
+		// The context was killed: there are no resources to run the pending
+		// to-be-closed handlers, so just discard them (as CallContext does).
+		t.closeStack.truncate(0)
+	} else {
+		err = t.cleanupCloseStack(nil, 0, err) // TODO: not nil
+	}
 	t.closeErr = err
 	// Release the goroutine's stack allocation before handing control back:
 	// after sendResumeValues the caller's goroutine owns the runtime again.
